@@ -152,9 +152,9 @@ def load_known():
 
 def parse_line(l):
     """'SPEC_MISMATCH p8 mul_sub f6 2a 6 => ff spec=f3' -> dict"""
-    m = re.match(r'(\w+)_MISMATCH (.*) => (\S+) \w+=(\S+)$', l)
+    m = re.match(r'(\w+)_MISMATCH (.*?) => (.*?) (?:model|spec)=(.*)$', l)
     if not m:
-        m2 = re.match(r'(.*) => (\S+)$', l)
+        m2 = re.match(r'(.*?) => (.*)$', l)
         if m2:
             ws = m2.group(1).split()
             return {'kind': 'RAW', 'ty': ws[0], 'op': ws[1], 'args': ws[2:], 'impl': m2.group(2), 'want': None, 'line': l}
